@@ -1428,7 +1428,10 @@ fn oracle_c19(plan: &ServerPlan, obs: &ServerObs, seed: u64) -> RunResult {
         // answers a datagram at once, reload or no reload - in virtual time, within
         // the two network delays (nothing is in flight that could hold the
         // configuration lock for longer than the swap itself)
-        if !plan.knobs.forwarding && m.proto == "udp" {
+        // (not in runs where the environment failed a receive of the server's: a
+        // server may pause for a moment after such a failure)
+        let recv_failed = obs.stats.get("fired.udp.recv_error").copied().unwrap_or(0) > 0;
+        if !plan.knobs.forwarding && m.proto == "udp" && !recv_failed {
             if let Some((t, _)) = o.replies.first() {
                 let one_way = plan.knobs.params.get("net.latency.min_ms").copied().unwrap_or(1)
                     + plan.knobs.params.get("net.latency.max_extra_ms").copied().unwrap_or(0);
